@@ -8,6 +8,7 @@ import decode_checks
 import pair_checks
 import track_checks
 import reader_checks
+import config_checks
 
 
 def decode_check(prop, tier, seed, rep):
@@ -23,6 +24,7 @@ for _p in ("C12", "C13", "C14", "C15"):
 
 
 CHECKS["C19"] = reader_checks.run
+CHECKS["C20"] = config_checks.run
 
 
 def setup():
